@@ -13,6 +13,7 @@
 -/
 import Nice.Model.IceRole
 import Nice.Props.C15
+import Nice.Props.C01Select
 namespace Nice.Props.C01
 open Nice.IceRole
 
